@@ -101,6 +101,15 @@ def edit_case(c):
         exp_vars = set(c["expected_vars"])
         if set(d.variables) != exp_vars:
             fails.append(dict(clause=f"derived operator takes over every variable it still uses ({how})", observed=sorted(d.variables), expected=sorted(exp_vars)))
+        # every variable the derived template overrides carries the override (zero and other falsy values included), every other
+        # one the parent's definition
+        for vn in exp_vars & set(d.variables):
+            wantv = (c.get("var_updates") or {}).get(vn, c["vars"].get(vn))
+            gotv = d.variables[vn]
+            same = (str(gotv) == str(wantv)) if isinstance(wantv, str) or isinstance(gotv, str) else (gotv == wantv and type(gotv) is type(wantv))
+            if vn in c["vars"] and not same:
+                fails.append(dict(clause=f"derived operator: variable definitions are the override where given, the parent's otherwise ({how})",
+                                  observed={vn: repr(gotv)}, expected={vn: repr(wantv)}))
     return dict(status="violated" if fails else "ok", fails=fails[:2])
 
 
@@ -135,6 +144,9 @@ def edit_cases():
     out.append(dict(tag="E12-add-with-append", eqs=["d/dt * r = -r/tau"], vars={"r": "output(0.1)", "tau": 2.0},
                     edit=OrderedDict([("add", ["d/dt * a = r - a"]), ("append", "+ k")]), var_updates={"a": "variable(0.0)", "k": 1.0},
                     expected_vars=["r", "tau", "k", "a"]))
+    out.append(dict(tag="E13-zero-valued-variable-overrides", eqs=["d/dt * r = (eta - r)/tau + k*r"],
+                    vars={"r": "output(0.1)", "tau": 2.0, "k": 1.2, "eta": 0.6}, edit={}, var_updates={"k": 0.0, "eta": 0, "tau": 0.5},
+                    expected_vars=["r", "tau", "k", "eta"]))
     out.append(dict(tag="E8-two-adds-two-loads", eqs=[E[0]], vars=V, edit={"add": ["d/dt * a = r - a", "d/dt * b = a - b"]},
                     var_updates={"a": "variable(0.0)", "b": "variable(0.0)"}, expected_vars=list(allv | {"a", "b"})))
     return out
@@ -221,8 +233,53 @@ def same_name_subcircuits(c):
     return dict(status="violated" if fails else "ok", fails=fails[:2])
 
 
+def same_name_edge_templates(c):
+    """Two DIFFERENT EdgeTemplate objects with the same name (one shared coupling operator, different overrides of its gain):
+    the dumped and re-loaded circuit has the dynamics of the original (every edge keeps its own gain)."""
+    import numpy as np
+    from pyrates import OperatorTemplate, NodeTemplate, EdgeTemplate, CircuitTemplate
+    rate = OperatorTemplate(name="ro", path=None, equations=["d/dt * r = (k - r)/tau + r_in"],
+                            variables={"r": "output(0.2)", "r_in": "input(0.0)", "k": 0.5, "tau": 2.0})
+    gop = OperatorTemplate(name="go", path=None, equations=["m = g * x_in + h"],
+                           variables={"m": "output(0.0)", "x_in": "input(0.0)", "g": 1.0, "h": 0.0})
+    pop = NodeTemplate(name="pn", path=None, operators=[rate])
+    gains = {("a", "b"): dict(g=2.0), ("b", "c"): dict(g=-0.5, h=0.25), ("c", "a"): dict(g=0.75)}
+    ets = {k_: EdgeTemplate(name="ge", path=None, operators={gop: dict(v)}) for k_, v in gains.items()}
+    order = [("a", "b"), ("b", "c"), ("c", "a")] if c.get("order", 0) == 0 else [("c", "a"), ("a", "b"), ("b", "c")]
+    tpl = CircuitTemplate(name="sn", path=None, nodes={"a": pop, "b": pop, "c": pop},
+                          edges=[(f"{s_}/ro/r", f"{t_}/ro/r_in", ets[(s_, t_)], {"weight": 1.0 + 0.5 * i}) for i, (s_, t_) in enumerate(order)])
+    w = {e: 1.0 + 0.5 * i for i, e in enumerate(order)}
+    fails = []
+    try:
+        if c["route"] == "roundtrip":
+            tpl.to_yaml("rt5/dumped.yaml")
+            tpl = CircuitTemplate.from_yaml("rt5/dumped/sn")
+        f, a, names, m = tpl.get_run_func("vf", step_size=1e-3, vectorize=c["vec"], verbose=False, float_precision="float64",
+                                          file_name="sn_mod", in_place=False, clear=True)
+        from rtc import oracle
+        pos = oracle.positions_of(tpl, m) if hasattr(oracle, "positions_of") else None
+        y = np.array([0.3, -0.2, 0.9])
+        a = list(a)
+        yi = list(names).index("y")
+        a[yi] = np.asarray(y, dtype=np.asarray(a[yi]).dtype)
+        dy = np.asarray(f(*a), dtype=float).ravel()
+        yv = dict(zip("abc", y))
+        want = []
+        for n in "abc":
+            inp = sum(w[(s_, t_)] * (gains[(s_, t_)]["g"] * yv[s_] + gains[(s_, t_)].get("h", 0.0)) for (s_, t_) in order if t_ == n)
+            want.append((0.5 - yv[n]) / 2.0 + inp)
+        if dy.shape != (3,) or not np.allclose(dy, want, rtol=1e-9, atol=1e-12):
+            fails.append(dict(clause=f"[{c['route']}, equally named edge templates with different overrides] vector field: derivative equals the equation",
+                              observed=dy.tolist(), expected=want))
+    except Exception as exn:
+        fails = [dict(clause=f"[{c['route']}] circuit with equally named, different edge templates compiles", observed=f"{type(exn).__name__}: {exn}")]
+    return dict(status="violated" if fails else "ok", fails=fails[:2])
+
+
 def dispatch(c):
     k = c["kind"]
+    if k == "same_name_edges":
+        return same_name_edge_templates(c)
     if k == "edit":
         return edit_case(c)
     if k == "two_spellings":
@@ -265,6 +322,11 @@ def families(tier, seed):
                             features=dict(route=route, has_overrides=True), kind="frontends", model=mr, route=route, vec=False, seed=seed))
     for c in edit_cases():
         out.append(dict(kind="edit", features=dict(edit=True, known_replace=c.get("known_replace", False)), **c))
+    for route in ("python", "roundtrip"):
+        for order in (0, 1):
+            for vec in (False, True):
+                out.append(dict(tag=f"Y5-same-name-edge-templates/{route}/{order}", features=dict(route=route, same_name_edges=True), kind="same_name_edges",
+                                route=route, order=order, vec=vec))
     out.append(dict(tag="Y1-two-path-spellings", features={}, kind="two_spellings"))
     out.append(dict(tag="Y4-relative-reference-after-full-path", features={}, kind="cross_file"))
     # hierarchy without per-node overrides: two sub-circuits that differ by one edge
